@@ -40,6 +40,8 @@ VARIABLES conf,       \* [useLogger: Logger (both locks) / bare OwnThreadHandler
                       \*         scope counts as available - the release itself is not an observable event,
                       \*  rt: record which calls had returned when a call began (ghost for RealTimeOrder; off in the
                       \*      configurations where it would only multiply states),
+                      \*  disc: resetOwnThread disconnects the aboutToQuit connection of the thread object it stops
+                      \*        (FALSE = the code before the fix, kept as a witness),
                       \*  safeEnv: the environment keeps asynchronous logging inside the life of the application
                       \*           object (moves only while it exists, stops before it is destroyed)]
           lm,         \* logger mutex (recursive): [owner, depth]
@@ -51,7 +53,10 @@ VARIABLES conf,       \* [useLogger: Logger (both locks) / bare OwnThreadHandler
           queue,      \* events posted to the worker, in posting order
           pending,    \* m_pendingCount
           app,        \* QCoreApplication instance: "none" | "alive" | "dead"
-          hooked,     \* aboutToQuit connected to resetOwnThread
+          hooked,     \* the current thread object carries an aboutToQuit connection that calls resetOwnThread
+          hobj,       \* the handler object itself: "alive" | "destroyed"
+          stale,      \* aboutToQuit connections carried by stopped thread objects that the event loop has not
+                      \* deleted yet (deleteLater) - they still call resetOwnThread on the handler
           pc,         \* per thread
           cur,        \* per thread: message in hand (<<>> = none)
           todo,       \* per producer: messages still to log
@@ -65,7 +70,7 @@ VARIABLES conf,       \* [useLogger: Logger (both locks) / bare OwnThreadHandler
                       \*  returned (messages whose logging call is back in the caller),
                       \*  pre (per message: the messages whose call had returned when its own call began)]
 
-vars == <<conf, lm, hm, tptr, wptr, thr, wobj, queue, pending, app, hooked, pc, cur, todo, script, inPipe, ctr, rd,
+vars == <<conf, lm, hm, tptr, wptr, thr, wobj, queue, pending, app, hooked, hobj, stale, hobj, stale, pc, cur, todo, script, inPipe, ctr, rd,
           delivered, accepted, ghost>>
 
 NoMsg == <<>>
@@ -95,7 +100,7 @@ CallBegin(t) ==
     /\ cur' = [cur EXCEPT ![t] = Head(todo[t])]
     /\ ghost' = IF conf.rt THEN [ghost EXCEPT !.pre = Append(@, [m |-> Head(todo[t]), before |-> ghost.returned])] ELSE ghost
     /\ Goto(t, IF conf.useLogger THEN "pm.enter" ELSE "pm.locked")
-    /\ UNCHANGED <<lm, hm, tptr, wptr, thr, wobj, queue, pending, app, hooked, todo, script, inPipe, ctr, rd,
+    /\ UNCHANGED <<lm, hm, tptr, wptr, thr, wobj, queue, pending, app, hooked, hobj, stale, todo, script, inPipe, ctr, rd,
                    delivered, accepted>>
 
 LockL(t) ==                      \* QMutexLocker locker(mutex())  - recursive
@@ -105,7 +110,7 @@ LockL(t) ==                      \* QMutexLocker locker(mutex())  - recursive
             /\ lm' = [owner |-> t, depth |-> IF lm.owner = t THEN lm.depth + 1 ELSE 1]
        ELSE UNCHANGED lm
     /\ Goto(t, "pm.locked")
-    /\ UNCHANGED <<hm, tptr, wptr, thr, wobj, queue, pending, app, hooked, cur, todo, script, inPipe, ctr, rd,
+    /\ UNCHANGED <<hm, tptr, wptr, thr, wobj, queue, pending, app, hooked, hobj, stale, cur, todo, script, inPipe, ctr, rd,
                    delivered, accepted, ghost>>
 
 LockH(t) ==                      \* QMutexLocker locker(&m_mutex) in process()
@@ -113,7 +118,7 @@ LockH(t) ==                      \* QMutexLocker locker(&m_mutex) in process()
     /\ HAvail(t)
     /\ hm' = t
     /\ Goto(t, "oth.locked")
-    /\ UNCHANGED <<lm, tptr, wptr, thr, wobj, queue, pending, app, hooked, cur, todo, script, inPipe, ctr, rd,
+    /\ UNCHANGED <<lm, tptr, wptr, thr, wobj, queue, pending, app, hooked, hobj, stale, cur, todo, script, inPipe, ctr, rd,
                    delivered, accepted, ghost>>
 
 Branch(t) ==                     \* if (m_worker) { pending++ ... } else sync
@@ -123,7 +128,7 @@ Branch(t) ==                     \* if (m_worker) { pending++ ... } else sync
             /\ Goto(t, "oth.posting")
        ELSE /\ UNCHANGED pending
             /\ Goto(t, "oth.sync.begin")
-    /\ UNCHANGED <<lm, hm, tptr, wptr, thr, wobj, queue, app, hooked, cur, todo, script, inPipe, ctr, rd,
+    /\ UNCHANGED <<lm, hm, tptr, wptr, thr, wobj, queue, app, hooked, hobj, stale, cur, todo, script, inPipe, ctr, rd,
                    delivered, accepted, ghost>>
 
 Post(t) ==                       \* QCoreApplication::postEvent(m_worker, new LogEvent(lmsg))
@@ -132,13 +137,13 @@ Post(t) ==                       \* QCoreApplication::postEvent(m_worker, new Lo
     /\ accepted' = Append(accepted, cur[t])
     /\ ghost' = [ghost EXCEPT !.crashed = @ \/ wobj # "alive"]       \* posting to a deleted worker
     /\ Goto(t, "oth.posted")
-    /\ UNCHANGED <<lm, hm, tptr, wptr, thr, wobj, pending, app, hooked, cur, todo, script, inPipe, ctr, rd, delivered>>
+    /\ UNCHANGED <<lm, hm, tptr, wptr, thr, wobj, pending, app, hooked, hobj, stale, cur, todo, script, inPipe, ctr, rd, delivered>>
 
 UnlockH(t) ==
     /\ pc[t] \in {"oth.posted", "oth.sync.end"}
     /\ hm' = IF hm = t THEN NoOne ELSE hm
     /\ Goto(t, "pm.done")
-    /\ UNCHANGED <<lm, tptr, wptr, thr, wobj, queue, pending, app, hooked, cur, todo, script, inPipe, ctr, rd,
+    /\ UNCHANGED <<lm, tptr, wptr, thr, wobj, queue, pending, app, hooked, hobj, stale, cur, todo, script, inPipe, ctr, rd,
                    delivered, accepted, ghost>>
 
 UnlockL(t) ==                    \* the logger mutex is released when processMessage returns
@@ -147,7 +152,7 @@ UnlockL(t) ==                    \* the logger mutex is released when processMes
        THEN lm' = IF lm.owner = t THEN [owner |-> IF lm.depth = 1 THEN NoOne ELSE t, depth |-> lm.depth - 1] ELSE lm
        ELSE UNCHANGED lm
     /\ Goto(t, "ret")
-    /\ UNCHANGED <<hm, tptr, wptr, thr, wobj, queue, pending, app, hooked, cur, todo, script, inPipe, ctr, rd,
+    /\ UNCHANGED <<hm, tptr, wptr, thr, wobj, queue, pending, app, hooked, hobj, stale, cur, todo, script, inPipe, ctr, rd,
                    delivered, accepted, ghost>>
 
 CallEnd(t) ==                    \* back in the caller
@@ -156,7 +161,7 @@ CallEnd(t) ==                    \* back in the caller
     /\ cur' = [cur EXCEPT ![t] = NoMsg]
     /\ ghost' = IF conf.rt THEN [ghost EXCEPT !.returned = @ \cup {cur[t]}] ELSE ghost
     /\ Goto(t, "idle")
-    /\ UNCHANGED <<lm, hm, tptr, wptr, thr, wobj, queue, pending, app, hooked, script, inPipe, ctr, rd,
+    /\ UNCHANGED <<lm, hm, tptr, wptr, thr, wobj, queue, pending, app, hooked, hobj, stale, script, inPipe, ctr, rd,
                    delivered, accepted>>
 
 \* Branch and Post as one step (what a trace shows at the point "oth.posting": the counter is already
@@ -168,7 +173,7 @@ BranchPost(t) ==
     /\ accepted' = Append(accepted, cur[t])
     /\ ghost' = [ghost EXCEPT !.crashed = @ \/ wobj # "alive"]
     /\ Goto(t, "oth.posted")
-    /\ UNCHANGED <<lm, hm, tptr, wptr, thr, wobj, app, hooked, cur, todo, script, inPipe, ctr, rd, delivered>>
+    /\ UNCHANGED <<lm, hm, tptr, wptr, thr, wobj, app, hooked, hobj, stale, cur, todo, script, inPipe, ctr, rd, delivered>>
 
 ---------------------------------------------------------------------------
 \* The pipeline as run by thread t (a producer in synchronous mode, or the worker):
@@ -181,28 +186,28 @@ PipeEnter(t) ==
     /\ pc[t] = PipeStart(t)
     /\ inPipe' = inPipe \cup {t}
     /\ Goto(t, "pipe.read")
-    /\ UNCHANGED <<lm, hm, tptr, wptr, thr, wobj, queue, pending, app, hooked, cur, todo, script, ctr, rd,
+    /\ UNCHANGED <<lm, hm, tptr, wptr, thr, wobj, queue, pending, app, hooked, hobj, stale, cur, todo, script, ctr, rd,
                    delivered, accepted, ghost>>
 
 PipeRead(t) ==
     /\ pc[t] = "pipe.read"
     /\ rd' = [rd EXCEPT ![t] = ctr]
     /\ Goto(t, "pipe.write")
-    /\ UNCHANGED <<lm, hm, tptr, wptr, thr, wobj, queue, pending, app, hooked, cur, todo, script, inPipe, ctr,
+    /\ UNCHANGED <<lm, hm, tptr, wptr, thr, wobj, queue, pending, app, hooked, hobj, stale, cur, todo, script, inPipe, ctr,
                    delivered, accepted, ghost>>
 
 PipeWrite(t) ==
     /\ pc[t] = "pipe.write"
     /\ ctr' = rd[t] + 1
     /\ Goto(t, "pipe.deliver")
-    /\ UNCHANGED <<lm, hm, tptr, wptr, thr, wobj, queue, pending, app, hooked, cur, todo, script, inPipe, rd,
+    /\ UNCHANGED <<lm, hm, tptr, wptr, thr, wobj, queue, pending, app, hooked, hobj, stale, cur, todo, script, inPipe, rd,
                    delivered, accepted, ghost>>
 
 PipeDeliver(t) ==
     /\ pc[t] = "pipe.deliver"
     /\ delivered' = Append(delivered, [m |-> cur[t], by |-> t, n |-> rd[t], async |-> (t = W)])
     /\ Goto(t, "pipe.exit")
-    /\ UNCHANGED <<lm, hm, tptr, wptr, thr, wobj, queue, pending, app, hooked, cur, todo, script, inPipe, ctr, rd,
+    /\ UNCHANGED <<lm, hm, tptr, wptr, thr, wobj, queue, pending, app, hooked, hobj, stale, cur, todo, script, inPipe, ctr, rd,
                    accepted, ghost>>
 
 \* SeqNumberAttr and the sink as one step (what a trace shows at the sink's delivery)
@@ -212,14 +217,14 @@ PipeRun(t) ==
     /\ ctr' = ctr + 1
     /\ delivered' = Append(delivered, [m |-> cur[t], by |-> t, n |-> ctr, async |-> (t = W)])
     /\ Goto(t, "pipe.exit")
-    /\ UNCHANGED <<lm, hm, tptr, wptr, thr, wobj, queue, pending, app, hooked, cur, todo, script, inPipe,
+    /\ UNCHANGED <<lm, hm, tptr, wptr, thr, wobj, queue, pending, app, hooked, hobj, stale, cur, todo, script, inPipe,
                    accepted, ghost>>
 
 PipeExit(t) ==
     /\ pc[t] = "pipe.exit"
     /\ inPipe' = inPipe \ {t}
     /\ Goto(t, PipeDone(t))
-    /\ UNCHANGED <<lm, hm, tptr, wptr, thr, wobj, queue, pending, app, hooked, cur, todo, script, ctr, rd,
+    /\ UNCHANGED <<lm, hm, tptr, wptr, thr, wobj, queue, pending, app, hooked, hobj, stale, cur, todo, script, ctr, rd,
                    delivered, accepted, ghost>>
 
 ---------------------------------------------------------------------------
@@ -230,27 +235,27 @@ WTake ==                         \* Qt delivers the next posted LogEvent
     /\ cur' = [cur EXCEPT ![W] = Head(queue)]
     /\ queue' = Tail(queue)
     /\ Goto(W, "wk.begin")
-    /\ UNCHANGED <<lm, hm, tptr, wptr, thr, wobj, pending, app, hooked, todo, script, inPipe, ctr, rd,
+    /\ UNCHANGED <<lm, hm, tptr, wptr, thr, wobj, pending, app, hooked, hobj, stale, todo, script, inPipe, ctr, rd,
                    delivered, accepted, ghost>>
 
 WDiscard ==                      \* no QCoreApplication instance: the event is deleted undelivered
     /\ pc[W] = "loop" /\ thr \in {"running", "quitting"} /\ queue # <<>> /\ app # "alive"
     /\ queue' = Tail(queue)
-    /\ UNCHANGED <<lm, hm, tptr, wptr, thr, wobj, pending, app, hooked, pc, cur, todo, script, inPipe, ctr, rd,
+    /\ UNCHANGED <<lm, hm, tptr, wptr, thr, wobj, pending, app, hooked, hobj, stale, pc, cur, todo, script, inPipe, ctr, rd,
                    delivered, accepted, ghost>>
 
 WDec ==                          \* m_pendingCount.fetchAndSubOrdered(1)
     /\ pc[W] = "wk.processed"
     /\ pending' = pending - 1
     /\ Goto(W, "wk.end")
-    /\ UNCHANGED <<lm, hm, tptr, wptr, thr, wobj, queue, app, hooked, cur, todo, script, inPipe, ctr, rd,
+    /\ UNCHANGED <<lm, hm, tptr, wptr, thr, wobj, queue, app, hooked, hobj, stale, cur, todo, script, inPipe, ctr, rd,
                    delivered, accepted, ghost>>
 
 WBack ==                         \* customEvent returns to the event loop
     /\ pc[W] = "wk.end"
     /\ cur' = [cur EXCEPT ![W] = NoMsg]
     /\ Goto(W, "loop")
-    /\ UNCHANGED <<lm, hm, tptr, wptr, thr, wobj, queue, pending, app, hooked, todo, script, inPipe, ctr, rd,
+    /\ UNCHANGED <<lm, hm, tptr, wptr, thr, wobj, queue, pending, app, hooked, hobj, stale, todo, script, inPipe, ctr, rd,
                    delivered, accepted, ghost>>
 
 WFinish ==                       \* the event loop returns after quit(); finished() deletes the worker object;
@@ -259,7 +264,7 @@ WFinish ==                       \* the event loop returns after quit(); finishe
     /\ wobj' = "freed"
     /\ queue' = <<>>
     /\ Goto(W, "gone")
-    /\ UNCHANGED <<lm, hm, tptr, wptr, pending, app, hooked, cur, todo, script, inPipe, ctr, rd,
+    /\ UNCHANGED <<lm, hm, tptr, wptr, pending, app, hooked, hobj, stale, cur, todo, script, inPipe, ctr, rd,
                    delivered, accepted, ghost>>
 
 ---------------------------------------------------------------------------
@@ -272,41 +277,42 @@ NextOp(s) == script' = [script EXCEPT ![s] = Tail(@)]
 RsEnter(s) ==
     /\ pc[s] = "idle" /\ Op(s) = "reset"
     /\ Goto(s, "rs.enter")
-    /\ UNCHANGED <<lm, hm, tptr, wptr, thr, wobj, queue, pending, app, hooked, cur, todo, script, inPipe, ctr, rd,
-                   delivered, accepted, ghost>>
+    /\ ghost' = [ghost EXCEPT !.crashed = @ \/ hobj = "destroyed"]   \* a member function of a destroyed handler
+    /\ UNCHANGED <<lm, hm, tptr, wptr, thr, wobj, queue, pending, app, hooked, hobj, stale, cur, todo, script, inPipe, ctr, rd,
+                   delivered, accepted>>
 
 RsLock(s) ==
     /\ pc[s] = "rs.enter" /\ HAvail(s)
     /\ hm' = s
     /\ Goto(s, "rs.locked")
-    /\ UNCHANGED <<lm, tptr, wptr, thr, wobj, queue, pending, app, hooked, cur, todo, script, inPipe, ctr, rd,
+    /\ UNCHANGED <<lm, tptr, wptr, thr, wobj, queue, pending, app, hooked, hobj, stale, cur, todo, script, inPipe, ctr, rd,
                    delivered, accepted, ghost>>
 
 RsNoThread(s) ==                 \* if (!m_thread) return;
     /\ pc[s] = "rs.locked" /\ ~tptr
     /\ hm' = (IF hm = s THEN NoOne ELSE hm)
     /\ NextOp(s) /\ Goto(s, "idle")
-    /\ UNCHANGED <<lm, tptr, wptr, thr, wobj, queue, pending, app, hooked, cur, todo, inPipe, ctr, rd,
+    /\ UNCHANGED <<lm, tptr, wptr, thr, wobj, queue, pending, app, hooked, hobj, stale, cur, todo, inPipe, ctr, rd,
                    delivered, accepted, ghost>>
 
 RsHasThread(s) ==
     /\ pc[s] = "rs.locked" /\ tptr
     /\ Goto(s, "rs.check")
-    /\ UNCHANGED <<lm, hm, tptr, wptr, thr, wobj, queue, pending, app, hooked, cur, todo, script, inPipe, ctr, rd,
+    /\ UNCHANGED <<lm, hm, tptr, wptr, thr, wobj, queue, pending, app, hooked, hobj, stale, cur, todo, script, inPipe, ctr, rd,
                    delivered, accepted, ghost>>
 
 RsCheckBusy(s) ==                \* while (pending > 0) { unlock; sleep; relock; }
     /\ pc[s] = "rs.check" /\ pending > 0
     /\ hm' = (IF hm = s THEN NoOne ELSE hm)
     /\ Goto(s, "rs.wait.unlock")
-    /\ UNCHANGED <<lm, tptr, wptr, thr, wobj, queue, pending, app, hooked, cur, todo, script, inPipe, ctr, rd,
+    /\ UNCHANGED <<lm, tptr, wptr, thr, wobj, queue, pending, app, hooked, hobj, stale, cur, todo, script, inPipe, ctr, rd,
                    delivered, accepted, ghost>>
 
 RsRelock(s) ==
     /\ pc[s] = "rs.wait.unlock" /\ HAvail(s)
     /\ hm' = s
     /\ Goto(s, "rs.check")
-    /\ UNCHANGED <<lm, tptr, wptr, thr, wobj, queue, pending, app, hooked, cur, todo, script, inPipe, ctr, rd,
+    /\ UNCHANGED <<lm, tptr, wptr, thr, wobj, queue, pending, app, hooked, hobj, stale, cur, todo, script, inPipe, ctr, rd,
                    delivered, accepted, ghost>>
 
 RsCheckIdle(s) ==
@@ -314,7 +320,7 @@ RsCheckIdle(s) ==
     /\ IF conf.recheck /\ ~tptr
        THEN /\ hm' = (IF hm = s THEN NoOne ELSE hm) /\ NextOp(s) /\ Goto(s, "idle")          \* somebody else stopped it meanwhile
        ELSE /\ Goto(s, "rs.quit") /\ UNCHANGED <<hm, script>>
-    /\ UNCHANGED <<lm, tptr, wptr, thr, wobj, queue, pending, app, hooked, cur, todo, inPipe, ctr, rd,
+    /\ UNCHANGED <<lm, tptr, wptr, thr, wobj, queue, pending, app, hooked, hobj, stale, cur, todo, inPipe, ctr, rd,
                    delivered, accepted, ghost>>
 
 RsQuit(s) ==                     \* m_thread->quit()
@@ -322,28 +328,30 @@ RsQuit(s) ==                     \* m_thread->quit()
     /\ thr' = IF thr = "running" THEN "quitting" ELSE thr
     /\ ghost' = [ghost EXCEPT !.crashed = @ \/ ~tptr]                \* null QPointer dereferenced
     /\ Goto(s, "rs.wait")
-    /\ UNCHANGED <<lm, hm, tptr, wptr, wobj, queue, pending, app, hooked, cur, todo, script, inPipe, ctr, rd,
+    /\ UNCHANGED <<lm, hm, tptr, wptr, wobj, queue, pending, app, hooked, hobj, stale, cur, todo, script, inPipe, ctr, rd,
                    delivered, accepted>>
 
 RsJoin(s) ==                     \* m_thread->wait()
     /\ pc[s] = "rs.wait" /\ thr \in {"finished", "none"}
     /\ Goto(s, "rs.joined")
-    /\ UNCHANGED <<lm, hm, tptr, wptr, thr, wobj, queue, pending, app, hooked, cur, todo, script, inPipe, ctr, rd,
+    /\ UNCHANGED <<lm, hm, tptr, wptr, thr, wobj, queue, pending, app, hooked, hobj, stale, cur, todo, script, inPipe, ctr, rd,
                    delivered, accepted, ghost>>
 
-RsClear(s) ==                    \* m_thread.clear(); m_worker = nullptr;
+RsClear(s) ==                    \* [disconnect the aboutToQuit hook;] m_thread.clear(); m_worker = nullptr;
     /\ pc[s] = "rs.joined"
     /\ tptr' = FALSE /\ wptr' = FALSE
     /\ thr' = "none" /\ wobj' = "none"
+    /\ hooked' = FALSE
+    /\ stale' = IF hooked /\ ~conf.disc THEN stale + 1 ELSE stale   \* the thread object lives on until deleteLater runs
     /\ ghost' = [ghost EXCEPT !.cleared = Set(accepted), !.stops = @ + 1]
     /\ Goto(s, "rs.cleared")
-    /\ UNCHANGED <<lm, hm, queue, pending, app, hooked, cur, todo, script, inPipe, ctr, rd, delivered, accepted>>
+    /\ UNCHANGED <<lm, hm, queue, pending, app, hobj, cur, todo, script, inPipe, ctr, rd, delivered, accepted>>
 
 RsUnlock(s) ==
     /\ pc[s] = "rs.cleared"
     /\ hm' = (IF hm = s THEN NoOne ELSE hm)
     /\ NextOp(s) /\ Goto(s, "idle")
-    /\ UNCHANGED <<lm, tptr, wptr, thr, wobj, queue, pending, app, hooked, cur, todo, inPipe, ctr, rd,
+    /\ UNCHANGED <<lm, tptr, wptr, thr, wobj, queue, pending, app, hooked, hobj, stale, cur, todo, inPipe, ctr, rd,
                    delivered, accepted, ghost>>
 
 \* moveToOwnThread()
@@ -352,55 +360,74 @@ MvLock(s) ==
     /\ conf.safeEnv => app = "alive"
     /\ hm' = s
     /\ Goto(s, "mv.locked")
-    /\ UNCHANGED <<lm, tptr, wptr, thr, wobj, queue, pending, app, hooked, cur, todo, script, inPipe, ctr, rd,
-                   delivered, accepted, ghost>>
+    /\ ghost' = [ghost EXCEPT !.crashed = @ \/ hobj = "destroyed"]
+    /\ UNCHANGED <<lm, tptr, wptr, thr, wobj, queue, pending, app, hooked, hobj, stale, cur, todo, script, inPipe, ctr, rd,
+                   delivered, accepted>>
 
 MvSkip(s) ==                     \* if (m_thread) return *this;
     /\ pc[s] = "mv.locked" /\ tptr
     /\ hm' = (IF hm = s THEN NoOne ELSE hm) /\ NextOp(s) /\ Goto(s, "idle")
-    /\ UNCHANGED <<lm, tptr, wptr, thr, wobj, queue, pending, app, hooked, cur, todo, inPipe, ctr, rd,
+    /\ UNCHANGED <<lm, tptr, wptr, thr, wobj, queue, pending, app, hooked, hobj, stale, cur, todo, inPipe, ctr, rd,
                    delivered, accepted, ghost>>
 
 MvCreate(s) ==                   \* new QThread, connect aboutToQuit, new Worker, start
     /\ pc[s] = "mv.locked" /\ ~tptr
     /\ tptr' = TRUE /\ wptr' = TRUE /\ thr' = "running" /\ wobj' = "alive"
-    /\ hooked' = (hooked \/ app = "alive")
+    /\ hooked' = (app = "alive")
     /\ pc' = [pc EXCEPT ![W] = "loop", ![s] = "mv.started"]
-    /\ UNCHANGED <<lm, hm, queue, pending, app, cur, todo, script, inPipe, ctr, rd, delivered, accepted, ghost>>
+    /\ UNCHANGED <<lm, hm, queue, pending, app, hobj, stale, cur, todo, script, inPipe, ctr, rd, delivered, accepted, ghost>>
 
 MvUnlock(s) ==
     /\ pc[s] = "mv.started"
     /\ hm' = (IF hm = s THEN NoOne ELSE hm) /\ NextOp(s) /\ Goto(s, "idle")
-    /\ UNCHANGED <<lm, tptr, wptr, thr, wobj, queue, pending, app, hooked, cur, todo, inPipe, ctr, rd,
+    /\ UNCHANGED <<lm, tptr, wptr, thr, wobj, queue, pending, app, hooked, hobj, stale, cur, todo, inPipe, ctr, rd,
                    delivered, accepted, ghost>>
 
 \* life of the application object (main thread only)
 AppCreate(s) ==
     /\ pc[s] = "idle" /\ Op(s) = "appCreate"
     /\ app' = "alive" /\ NextOp(s)
-    /\ UNCHANGED <<lm, hm, tptr, wptr, thr, wobj, queue, pending, hooked, pc, cur, todo, inPipe, ctr, rd,
+    /\ UNCHANGED <<lm, hm, tptr, wptr, thr, wobj, queue, pending, hooked, hobj, stale, pc, cur, todo, inPipe, ctr, rd,
                    delivered, accepted, ghost>>
 
 \* exec() + quit(): aboutToQuit runs the connected resetOwnThread on this thread, then exec returns
 AppQuit(s) ==
     /\ pc[s] = "idle" /\ Op(s) = "execQuit"
-    /\ script' = [script EXCEPT ![s] = (IF hooked /\ tptr THEN <<"reset">> ELSE <<>>) \o Tail(@)]
-    /\ UNCHANGED <<lm, hm, tptr, wptr, thr, wobj, queue, pending, app, hooked, pc, cur, todo, inPipe, ctr, rd,
+    /\ LET n == stale + (IF hooked /\ tptr THEN 1 ELSE 0)            \* every live connection calls resetOwnThread
+       IN  script' = [script EXCEPT ![s] = [i \in 1..n |-> "reset"] \o Tail(@)]
+    /\ stale' = 0                                                     \* exec() ends by running the deferred deletions
+    /\ UNCHANGED <<lm, hm, tptr, wptr, thr, wobj, queue, pending, app, hooked, hobj, pc, cur, todo, inPipe, ctr, rd,
+                   delivered, accepted, ghost>>
+
+\* the event loop runs without a quit: the stopped thread objects are deleted (and their connections with them)
+AppSpin(s) ==
+    /\ pc[s] = "idle" /\ Op(s) = "spin" /\ app = "alive"
+    /\ stale' = 0 /\ NextOp(s)
+    /\ UNCHANGED <<lm, hm, tptr, wptr, thr, wobj, queue, pending, app, hooked, hobj, pc, cur, todo, inPipe, ctr, rd,
+                   delivered, accepted, ghost>>
+
+\* the end of the handler's destructor (its body was the "reset" before): the object is gone
+Free(s) ==
+    /\ pc[s] = "idle" /\ Op(s) = "free"
+    /\ conf.safeEnv => \A t \in Producers : todo[t] = <<>> /\ pc[t] = "idle"    \* nobody logs into a dying logger
+    /\ hobj' = "destroyed" /\ NextOp(s)
+    /\ UNCHANGED <<lm, hm, tptr, wptr, thr, wobj, queue, pending, app, hooked, stale, pc, cur, todo, inPipe, ctr, rd,
                    delivered, accepted, ghost>>
 
 AppDestroy(s) ==
     /\ pc[s] = "idle" /\ Op(s) = "appDestroy"
     /\ conf.safeEnv => ~tptr
-    /\ app' = "dead" /\ hooked' = FALSE /\ NextOp(s)
-    /\ UNCHANGED <<lm, hm, tptr, wptr, thr, wobj, queue, pending, pc, cur, todo, inPipe, ctr, rd,
+    /\ app' = "dead" /\ hooked' = FALSE /\ stale' = 0 /\ NextOp(s)
+    /\ UNCHANGED <<lm, hm, tptr, wptr, thr, wobj, queue, pending, hobj, pc, cur, todo, inPipe, ctr, rd,
                    delivered, accepted, ghost>>
 
 ---------------------------------------------------------------------------
 Init ==
-    /\ conf \in [useLogger : BOOLEAN, recheck : BOOLEAN, safeEnv : BOOLEAN, locks : BOOLEAN, eager : BOOLEAN, rt : BOOLEAN]
+    /\ conf \in [useLogger : BOOLEAN, recheck : BOOLEAN, safeEnv : BOOLEAN, locks : BOOLEAN, eager : BOOLEAN, rt : BOOLEAN,
+               disc : BOOLEAN]
     /\ lm = [owner |-> NoOne, depth |-> 0] /\ hm = NoOne
     /\ tptr = FALSE /\ wptr = FALSE /\ thr = "none" /\ wobj = "none"
-    /\ queue = <<>> /\ pending = 0 /\ app = "none" /\ hooked = FALSE
+    /\ queue = <<>> /\ pending = 0 /\ app = "none" /\ hooked = FALSE /\ hobj = "alive" /\ stale = 0
     /\ pc = [t \in Threads |-> IF t = W THEN "gone" ELSE "idle"]
     /\ cur = [t \in Threads |-> NoMsg]
     /\ inPipe = {} /\ ctr = 0 /\ rd = [t \in Threads |-> 0]
@@ -418,7 +445,7 @@ WorkerStep ==
 StopperStep(s) ==
     RsEnter(s) \/ RsLock(s) \/ RsNoThread(s) \/ RsHasThread(s) \/ RsCheckBusy(s) \/ RsRelock(s) \/ RsCheckIdle(s)
     \/ RsQuit(s) \/ RsJoin(s) \/ RsClear(s) \/ RsUnlock(s) \/ MvLock(s) \/ MvSkip(s) \/ MvCreate(s) \/ MvUnlock(s)
-    \/ AppCreate(s) \/ AppQuit(s) \/ AppDestroy(s)
+    \/ AppCreate(s) \/ AppQuit(s) \/ AppDestroy(s) \/ AppSpin(s) \/ Free(s)
 
 Next == /\ (\E t \in Producers : ProducerStep(t)) \/ WorkerStep \/ (\E s \in Stoppers : StopperStep(s))
         /\ UNCHANGED conf
